@@ -429,7 +429,11 @@ def r2_comments_blanks(R) -> None:
     # strip_comments: cut at the first '#'
     sc_ = R.repo.func(q + '.<locals>.strip_comments')
     finds = [x for x in ast.walk(sc_.node) if method_call(x, 'find', 'index', 'partition', 'split') and x.args and is_const(x.args[0], '#')]
-    R.check(bool(finds), sc_.qualname, 'strip-at-hash', 'a comment starts at the first `#`', 'strip_comments does not locate `#`', where=sc_.where)
+    if finds:
+        R.check(True, sc_.qualname, 'strip-at-hash', 'a comment starts at the first `#`', '', where=sc_.where)
+    else:
+        # another way of cutting (a regular expression, a scan) is not a finding; the exits are read below
+        R.inconclusive(sc_.qualname, 'strip_comments does not locate `#` with find/index/partition/split: how it cuts the line is not understood by this rule')
     _strip_comments_paths(R, sc_)
     # blank statements are skipped
     ys = [n for n in f.cfg.nodes if n.ast is not None and n.kind == 'stmt' and any(isinstance(x, ast.Yield) for x in ast.walk(n.ast))]
